@@ -43,7 +43,27 @@ def tasks(tier, seed):
     shards = 16 if tier == "quick" else 64
     t = [(MOD, "hyp", (n // shards, seed * 1_000_003 + i, tier)) for i in range(shards)]
     t.append((MOD, "fixed", ()))
+    t += [(MOD, "adjacent", (i, 16, tier)) for i in range(16)]
     return t
+
+
+def adjacent(acc, shard, nshards, tier):
+    """Bounds that are one release step apart with unequal written lengths (the coincidences the ~= / ==X.* /
+    !=X.* renderings inspect - contains() goes through the rendered text), as computed (not parsed) ranges."""
+    from .c06 import adjacency_family
+
+    mod = sys.modules[MOD]
+    stride = 7 if tier == "quick" else 1
+    for i, (l, r) in enumerate(adjacency_family()):
+        if i % stride or (i // stride) % nshards != shard:
+            continue
+        for tree in (
+            ["and", ["leaf", f">={l}"], ["leaf", f"<{r}"]],
+            ["not", ["or", ["leaf", f"<{l}"], ["leaf", f">={r}"]]],
+            ["or", ["leaf", f"<{l}"], ["leaf", f">={r}"]],
+            ["and", ["leaf", f">{l}"], ["leaf", f"<={r}"]],
+        ):
+            harness.process(mod, acc, "tree", {"tree": tree}, "adjacent-bounds")
 
 
 def strategy(tier):
